@@ -462,9 +462,22 @@ func WireDatum(t *rapid.T, s ref.Schema, ts spec.TypeSpec, has bool) ref.Datum {
 	panic("gen: no datum generator for " + s.Kind)
 }
 
-// timeInt draws the stored integer of a logical time type such that the
-// instant is representable in int64 nanoseconds.
+// timeInt draws the stored integer of a logical time type. Three quarters of the
+// draws give an instant that is representable in int64 nanoseconds (years
+// 1677-2262); the others use the whole range of the stored type (a
+// timestamp-millis of year 9999 is an ordinary sentinel value).
 func timeInt(t *rapid.T, s ref.Schema) int64 {
+	if (s.LogicalType == "timestamp-millis" || s.LogicalType == "timestamp-micros") && rapid.IntRange(0, 3).Draw(t, "farTime") == 0 {
+		if rapid.Bool().Draw(t, "sentinel") {
+			// 9999-12-31T23:59:59.999, 0001-01-01, 2262-04-12, 1677-09-21, 3000-01-01 in the unit
+			per := int64(1000)
+			if s.LogicalType == "timestamp-micros" {
+				per = 1000000
+			}
+			return per*rapid.SampledFrom([]int64{253402300799, -62135596800 + 1, 9223372037, -9223372037, 32503680000, 9223372036, -9223372036}).Draw(t, "farSec") + int64(rapid.IntRange(0, 999).Draw(t, "farSub"))
+		}
+		return IntIn(t, "farStored", math.MinInt64, math.MaxInt64)
+	}
 	switch s.LogicalType {
 	case "date":
 		if rapid.Bool().Draw(t, "dateEdge") {
@@ -535,15 +548,20 @@ func wireValueIn(t *rapid.T, s ref.Schema, ts spec.TypeSpec, nullable bool) spec
 			case "timestamp-micros":
 				unit = 1e3
 			}
-			ns = stored * unit
+			// seconds and nanoseconds straight from the stored integer (no
+			// intermediate nanosecond count, which only covers 1677-2262)
+			perSec := int64(1e9) / unit
+			sec, sub := floorDivMod(stored, perSec)
+			rem := int64(0)
 			if unit > 1 && rapid.Bool().Draw(t, "subUnit") {
-				rem := rapid.Int64Range(0, unit-1).Draw(t, "rem")
-				if ns <= math.MaxInt64-rem {
-					ns += rem
-				}
+				rem = rapid.Int64Range(0, unit-1).Draw(t, "rem")
 			}
-			v.TSec, v.TNsec = floorDivMod(ns, 1e9)
+			v.TSec, v.TNsec = sec, sub*unit+rem
+			if v.TSec == -62135596800 && v.TNsec == 0 {
+				v.TNsec = unit // never the zero time
+			}
 			v.TOff = drawOffset(t)
+			_ = ns
 			return v
 		}
 		goKind := ts.K
